@@ -22,7 +22,7 @@ AttrTable == {
   [a |-> "LongDescription", vals |-> {"", "text"}, womit |-> {""}, rdefault |-> ""],
   [a |-> "Unit", vals |-> {"", "m/s"}, womit |-> {""}, rdefault |-> ""],
   [a |-> "LinearAdjustment", vals |-> {"none", "8x+0", "8x-8", "0x+16", "1x+3", "1x+0"}, womit |-> {"none"}, rdefault |-> "none"],
-  [a |-> "DefaultCalibrator", vals |-> {"none", "poly", "spline"}, womit |-> {"none"}, rdefault |-> "none"],
+  [a |-> "DefaultCalibrator", vals |-> {"none", "poly", "spline", "poly-many-digits", "spline-many-digits"}, womit |-> {"none"}, rdefault |-> "none"],
   [a |-> "ContextCalibratorList", vals |-> {"none", "one", "two"}, womit |-> {"none"}, rdefault |-> "none"],
   [a |-> "TimeEncoding.scale/offset", vals |-> {"none", "offset+scale", "scale", "quadratic", "offset+scale+quadratic", "offset+quadratic", "constant"},
    womit |-> {"none"}, rdefault |-> "none"],
